@@ -482,6 +482,58 @@ pub fn key_partitions(t: &T, max_pos: usize) -> Vec<T> {
 
 /// Lock-value variants: every assignment of {10, 20, 500000010} to the `after` leaves and of
 /// {5, 6, 4194309} to the `older` leaves (terms with 2..=3 lock leaves; the base assignment excluded).
+/// Opcode-budget ladder: every binary / ternary combinator with a 1-of-20 multisig in each child
+/// position, padded with `v:older(1)` (two opcodes) and `v:1` (one opcode) so that the WORST-CASE
+/// number of counted opcodes - computed here from first principles: every non-push opcode of the
+/// script counts whether executed or not, every executed CHECKMULTISIG adds its 20 keys, and a
+/// dissatisfied multisig is still executed - runs from 197 to 206 around the consensus limit of 201.
+/// Returns (name, term, worst-case count).
+pub fn budget_ladder() -> Vec<(String, T, usize)> {
+    use crate::ast::encode_ref;
+    let env = crate::keys::RefEnc { form: KeyForm::Compressed };
+    let b = |t: T| Box::new(t);
+    let multi = |p: &str| T::Multi(1, (1..=20).map(|i| format!("{}{}", p, i)).collect());
+    let (m1, m2, m3) = (multi("A"), multi("B"), multi("C"));
+    // (name, core of base type B, keys executed on the worst path)
+    let cores: Vec<(&str, T, usize)> = vec![
+        ("or_c", T::AndV(b(T::OrC(b(m1.clone()), b(T::Verify(b(m2.clone()))))), b(T::True)), 40),
+        ("or_d", T::OrD(b(m1.clone()), b(m2.clone())), 40),
+        ("or_b", T::OrB(b(m1.clone()), b(T::Alt(b(m2.clone())))), 40),
+        ("and_b", T::AndB(b(m1.clone()), b(T::Alt(b(m2.clone())))), 40),
+        ("and_v", T::AndV(b(T::Verify(b(m1.clone()))), b(m2.clone())), 40),
+        ("or_i", T::OrI(b(m1.clone()), b(m2.clone())), 20),
+        ("andor", T::AndOr(b(m1.clone()), b(m2.clone()), b(m3.clone())), 40),
+        ("thresh", T::Thresh(1, vec![m1.clone(), T::Alt(b(m2.clone())), T::Alt(b(m3.clone()))]), 60),
+        ("or_d(and_b)", T::OrD(b(T::AndB(b(m1.clone()), b(T::Alt(b(m2.clone()))))), b(m3.clone())), 60),
+        ("or_d(thresh)", T::OrD(b(T::Thresh(2, vec![m1.clone(), T::Alt(b(m2.clone()))])), b(m3.clone())), 60),
+        ("andor(thresh)", T::AndOr(b(T::Thresh(2, vec![m1.clone(), T::Alt(b(m2.clone()))])), b(T::True), b(m3.clone())), 60),
+    ];
+    let static_ops = |t: &T| -> usize {
+        crate::rsm::parse_script(&encode_ref(t, &env)).iter().filter(|o| matches!(o, crate::rsm::Op::Code(c) if *c > 0x60)).count()
+    };
+    let mut out = vec![];
+    for (name, core, keys) in cores {
+        let base = static_ops(&core) + keys;
+        for total in 197..=206usize {
+            if total < base {
+                continue;
+            }
+            let pad = total - base;
+            let (twos, ones) = (pad / 2, pad % 2);
+            let mut t = core.clone();
+            for _ in 0..ones {
+                t = T::AndV(b(T::Verify(b(T::True))), b(t));
+            }
+            for _ in 0..twos {
+                t = T::AndV(b(T::Verify(b(T::Older(1)))), b(t));
+            }
+            debug_assert_eq!(static_ops(&t) + keys, total);
+            out.push((format!("{}@{}", name, total), t, total));
+        }
+    }
+    out
+}
+
 /// Conjunction chains `and_v(v:X1,and_v(v:X2,..,pk(K1)))` whose script is EXACTLY `target` bytes long
 /// under the reference encoder: scripts sitting on the boundaries where a push opcode or a compact
 /// size grows by a byte (75/76, 255/256 for the redeem-script push of P2SH, 252/253 for the script
